@@ -11,8 +11,8 @@ open CnvVerif CnvVerif.Export CnvVerif.Generated
 /-! ### the command-line glue -/
 
 theorem verifySampleSex_is_source (g : Bool) (s : Option String) :
-    verifySampleSex g s = src_verify_sample_sex g (s.getD "") := by
-  unfold src_verify_sample_sex verifySampleSex maleSpellings
+    verifySampleSex g s = src_export_verify_sample_sex g (s.getD "") := by
+  unfold src_export_verify_sample_sex verifySampleSex maleSpellings
   cases s with
   | none => simp
   | some s =>
